@@ -159,6 +159,12 @@ fn run(c: &mut Ctx) {
         if di % 3 == 2 {
             opts.d = 0; // every sweep empties the table: a rejected frame that advanced the sweep counter would show
         }
+        if di % 5 == 3 {
+            opts.m = Some(vec![11, 17, 18]); // -M (log these formats): logging a damaged squitter must not apply it
+        }
+        if di % 5 == 4 {
+            opts.c = true;
+        }
         if di % 4 == 1 {
             opts.fmt = Some(["sbs", "beast", "avr"][di % 3].to_string()); // -F is declared by the program; parity applies regardless
         }
@@ -290,8 +296,17 @@ fn wide_single_bit_layer(c: &mut Ctx) {
     });
     let strat = prop_oneof![3 => base_frame(), 3 => sparse.boxed()];
     let bases = c.draw(n, strat);
-    let opts = Opts::quiet();
-    for group in bases.chunks(64) {
+    for (gi, group) in bases.chunks(64).enumerate() {
+        // every presentation / logging option in turn: none of them may let a damaged squitter through
+        let mut opts = Opts::quiet();
+        match gi % 6 {
+            1 => opts.m = Some(vec![17, 18, 11]),
+            2 => opts.c = true,
+            3 => opts.u = true,
+            4 => { opts.r = true; opts.m = Some(vec![17]) }
+            5 => opts.f = Some(vec![11, 17, 18]),
+            _ => {}
+        }
         // distinct addresses only (two bases of one aircraft would make the intact prefix order-dependent, not wrong, but keep it simple)
         let mut seen = std::collections::BTreeSet::new();
         let group: Vec<Frame> = group.iter().filter(|f| f.address() != 0 && seen.insert(f.address())).cloned().collect();
